@@ -96,6 +96,10 @@ func baseGetFEnv(L *LState) int {
 	} else {
 		value = L.Get(1)
 	}
+	if _, ok := value.(*LFunction); !ok {
+		// lbaselib.c getfunc: anything but a function is a level read with luaL_optint (nil: 1)
+		value = LNumber(L.OptInt(1, 1))
+	}
 
 	if fn, ok := value.(*LFunction); ok {
 		if !fn.IsG {
@@ -375,6 +379,10 @@ func baseSetFEnv(L *LState) int {
 		value = L.Get(1)
 	}
 	env := L.CheckTable(2)
+	if _, ok := value.(*LFunction); !ok {
+		// lbaselib.c getfunc: anything but a function is a level read with luaL_checkint
+		value = LNumber(L.CheckInt(1))
+	}
 
 	if fn, ok := value.(*LFunction); ok {
 		if fn.IsG {
